@@ -93,6 +93,16 @@ fn prepare_unpriv_tree(rootdir: &std::path::Path, spec: &TreeSpec, seed: u64, op
             !last.is_empty() && line.contains(&fmt::hex(last)[1..])
         })
         .collect();
+    // remove_all has to *read* the directory it empties: take that away from the named directory often
+    if let Op::RemoveAll { path } = op {
+        let last = path.rsplit(|c| *c == b'/').find(|c| !c.is_empty()).unwrap_or(b"");
+        if rng.chance(1, 2) {
+            if let Some(e) = spec.entries.iter().find(|e| e.kind == tree::Kind::Dir && e.path.rsplit(|c| *c == b'/').next() == Some(last)) {
+                let p = rootdir.join(OsStr::from_bytes(&e.path));
+                let _ = fs::set_permissions(&p, fs::Permissions::from_mode(*rng.pick(&[0o300, 0o000, 0o200, 0o100, 0o500])));
+            }
+        }
+    }
     if rng.chance(2, 3) {
         for _ in 0..(1 + rng.below(2)) {
             let e = if !on_path.is_empty() && rng.chance(3, 4) { *rng.pick(&on_path) } else { rng.pick(&spec.entries) };
